@@ -229,7 +229,7 @@ CONTRACTS = [
         id='K4', target='taskchain.parameter:Parameter.value',
         props={'C12': 'decisive', 'C02': 'supporting', 'C03': 'supporting'},
         inputs={'self': ParamObj()}, native_gens=PARAM_GENS,
-        ensures={'eq_spec': 'k4_eq_spec'},
+        ensures={'eq_spec': 'k4_eq_spec'}, may_raise=['TypeError'],
         canary='k4_canary',
     ),
     Contract(
@@ -238,7 +238,7 @@ CONTRACTS = [
         inputs={'self': ParamObj()}, native_gens=PARAM_GENS,
         callees={'taskchain.parameter:Parameter.value': ByContract(spec='param_value'),
                  'taskchain.utils.clazz:repr_from_instantiation': ByContract(spec='enc')},
-        ensures={'eq_spec': 'k2_eq_spec'},
+        ensures={'eq_spec': 'k2_eq_spec'}, may_raise=['TypeError'],
         canary='k2_canary',
     ),
     Contract(
@@ -247,7 +247,7 @@ CONTRACTS = [
         inputs={'self': ParamObj()}, native_gens=PARAM_GENS,
         callees={'taskchain.parameter:Parameter.value': ByContract(spec='param_value'),
                  'taskchain.parameter:AbstractParameter.value_repr': ByContract(spec='value_text')},
-        ensures={'eq_spec': 'k3_eq_spec'},
+        ensures={'eq_spec': 'k3_eq_spec'}, may_raise=['TypeError'],
         canary='k3_canary',
     ),
     Contract(
@@ -267,7 +267,7 @@ CONTRACTS = [
         call=['self', 'task'],
         native_gens={'inputs': gen_namespaced_inputs, 'task.cfg.namespace': gen_namespace},
         requires=['k9_names_prefixed'],
-        ensures={'eq_spec': 'k9_eq_spec'},
+        ensures={'eq_spec': 'k9_eq_spec'}, may_raise=['AssertionError'],
         canary='k9_canary', l0=['A-sha', 'A-sorted'],
     ),
 ]
